@@ -15,6 +15,13 @@ func init() {
 		Property: "C00", Name: "selftest", Level: "exploration",
 		Rule:      "toy: sequences of 40 draws in [0,10); non-trivial if a 3 is drawn",
 		QuickRuns: 200, QuickBudget: 20e9, ThoroughRuns: 2000, ThoroughBudget: 60e9,
+		OnCrash: func(log string) (string, string, string, bool) {
+			v, site := kernel.CrashSite(log, "verif/sim/checks/")
+			if site == "" {
+				return "", "", "", false
+			}
+			return "process-crash", "toy/crash/" + site, "the process died: " + v, true
+		},
 		Run: func(c *kernel.Ctx) {
 			ops := c.Tape.Fork("ops")
 			prev := -1
@@ -24,6 +31,12 @@ func init() {
 				c.Finger(v)
 				if v == 3 {
 					c.NonTrivial()
+				}
+				if os.Getenv("VERIF_SELFTEST_CRASH") == "1" && prev == 9 && v == 9 && i > 30 {
+					// a goroutine of the "code under test" dies: the process goes down
+					done := make(chan struct{})
+					go func() { defer close(done); crashSite(i) }()
+					<-done
 				}
 				if os.Getenv("VERIF_SELFTEST_BREAK") == "1" && prev == 3 && v == 7 {
 					c.Violate("toy", "toy/3-then-7", "7 after 3 at step %d", i)
@@ -38,3 +51,5 @@ func init() {
 
 func TestMain(m *testing.M) { kernel.Main(m, "C00") }
 func TestSim(t *testing.T)  { kernel.Worker(t, "C00") }
+
+func crashSite(i int) { panic("toy crash") }
